@@ -144,6 +144,9 @@ bool StepScript(InterpreterEnv& env)
         env.altstack_history.push_back(env.altstack);
         env.pc_history.push_back(env.pc);
         env.nOpCount_history.push_back(env.nOpCount);
+        env.vfExec_history.push_back(env.vfExec);
+        env.pbegincodehash_history.push_back(env.pbegincodehash);
+        env.execdata_history.push_back(env.execdata);
 
         if (!StepScript(env, pc)) {
             // undo above pushes
@@ -151,6 +154,9 @@ bool StepScript(InterpreterEnv& env)
             env.altstack_history.pop_back();
             env.pc_history.pop_back();
             env.nOpCount_history.pop_back();
+            env.vfExec_history.pop_back();
+            env.pbegincodehash_history.pop_back();
+            env.execdata_history.pop_back();
             return false;
         }
 
@@ -252,11 +258,17 @@ bool RewindScript(InterpreterEnv& env)
     env.pc = env.pc_history.back();
     env.curr_op_seq--;
     env.nOpCount = env.nOpCount_history.back();
+    env.vfExec = env.vfExec_history.back();
+    env.pbegincodehash = env.pbegincodehash_history.back();
+    env.execdata = env.execdata_history.back();
     // Pop
     env.stack_history.pop_back();
     env.altstack_history.pop_back();
     env.pc_history.pop_back();
     env.nOpCount_history.pop_back();
+    env.vfExec_history.pop_back();
+    env.pbegincodehash_history.pop_back();
+    env.execdata_history.pop_back();
     return true;
 }
 
